@@ -149,7 +149,12 @@ func xvPrepare(results []*JobResult, opt Options, perJob int) ([]xvRun, []Native
 			continue
 		}
 		r := rand.New(rand.NewSource(opt.Seed*7919 + int64(i)))
-		for k := 0; k < perJob; k++ {
+		n := perJob
+		if len(jr.Exp.Incon) > 0 {
+			// the symbolic run hit an engine limit on this case: compensate with more native samples
+			n = 24
+		}
+		for k := 0; k < n; k++ {
 			asg := map[string]string{}
 			if k > 0 {
 				asg = randAsg(r, jr.Exp, jr.Exp.RingUsed)
